@@ -41,14 +41,15 @@ type c07Held struct {
 }
 
 type c07Sub struct {
-	sc     *simClient
-	pcs    map[string]*webrtc.PeerConnection
-	held   map[string]*c07Held // observed: offered and not closed
-	closes map[string]int      // closes received in this step
-	offers map[string]int      // offers received in this step
-	req    map[string][]string // model: request map
-	perStr map[string][]string // model: per-stream request overrides (while the downstream exists)
-	mheld  map[string][]string // model: stream -> sorted selected track ids
+	sc          *simClient
+	mindChanged bool // sent two different requests in this step without answering in between
+	pcs         map[string]*webrtc.PeerConnection
+	held        map[string]*c07Held // observed: offered and not closed
+	closes      map[string]int      // closes received in this step
+	offers      map[string]int      // offers received in this step
+	req         map[string][]string // model: request map
+	perStr      map[string][]string // model: per-stream request overrides (while the downstream exists)
+	mheld       map[string][]string // model: stream -> sorted selected track ids
 	// streams this subscriber aborted while a delayed announcement was still pending: the announcement may
 	// arrive after the abort and offer the stream again (it matches the request), or it may have arrived before
 	optional map[string]bool
@@ -79,7 +80,7 @@ type c07World struct {
 	timer   bool // publish through the real pushConn (200 ms coalescing timer) instead of pushConnNow
 	pending bool // a timer may still be running
 	// stats
-	teardowns, offersSeen, closesSeen, replaced, aborts, lowSel, moves, failedReplaces int
+	teardowns, offersSeen, closesSeen, replaced, aborts, lowSel, moves, failedReplaces, changedMind int
 }
 
 func (w *c07World) logf(f string, a ...any) {
@@ -228,23 +229,27 @@ func (w *c07World) handle(sub *c07Sub) bool {
 				}
 				sub.pcs[m.Id] = pc
 			}
-			err := pc.SetRemoteDescription(webrtc.SessionDescription{Type: webrtc.SDPTypeOffer, SDP: m.SDP})
-			if err != nil && pc.ConnectionState() == webrtc.PeerConnectionStateClosed {
-				// the harness's own PeerConnection for this id is closed (seen once in 64000 timer-mode cases, not
-				// reproducible): that says nothing about the offer; answer it with a fresh one
+			// the answer comes from the harness's own PeerConnection for this id.  That object says nothing about the offer
+			// when it is itself closed (pion closes it under the harness in rare interleavings, e.g. when a second server-side
+			// connection reuses the id with new transport parameters): answer with a fresh one then
+			var ans webrtc.SessionDescription
+			var err error
+			for attempt := 0; attempt < 2; attempt++ {
+				err = pc.SetRemoteDescription(webrtc.SessionDescription{Type: webrtc.SDPTypeOffer, SDP: m.SDP})
+				if err == nil {
+					ans, err = pc.CreateAnswer(nil)
+				}
+				if err == nil || !(pc.ConnectionState() == webrtc.PeerConnectionStateClosed || strings.Contains(err.Error(), "connection closed")) {
+					break
+				}
 				pc, err = webrtc.NewPeerConnection(webrtc.Configuration{})
 				if err != nil {
 					t.Fatalf("VERIF-HARNESS-ERROR: %v", err)
 				}
 				sub.pcs[m.Id] = pc
-				err = pc.SetRemoteDescription(webrtc.SessionDescription{Type: webrtc.SDPTypeOffer, SDP: m.SDP})
 			}
 			if err != nil {
 				t.Fatalf("C07: the subscriber's PeerConnection rejects the server's offer: %v", err)
-			}
-			ans, err := pc.CreateAnswer(nil)
-			if err != nil {
-				t.Fatalf("VERIF-HARNESS-ERROR answer: %v", err)
 			}
 			pc.SetLocalDescription(ans)
 			if !sub.sc.closed {
@@ -395,7 +400,8 @@ func (w *c07World) check(step string, actor *simClient, selfOnly bool) {
 			if st == nil {
 				continue
 			}
-			if _, still := sub.mheld[id]; still && !st.ended {
+			if _, still := sub.mheld[id]; still && !st.ended && !sub.mindChanged {
+				// (a subscriber that asked for something else first may have been sent a close under that request)
 				t.Fatalf("C07 after %s: %s was sent a close for stream %s, which is live and which it requests", step, sc.id, id)
 			}
 		}
@@ -416,6 +422,7 @@ func (w *c07World) check(step string, actor *simClient, selfOnly bool) {
 	for _, sc := range w.s.cs {
 		sub := w.subs[sc]
 		sub.offers, sub.closes, sub.other = map[string]int{}, map[string]int{}, 0
+		sub.mindChanged = false
 	}
 }
 
@@ -641,6 +648,22 @@ func c07Machine(t *rapid.T, timer bool, rec *verifkit.Rec) {
 						req[label] = l
 						mreq[label] = r
 					}
+				}
+				if !forced && rapid.IntRange(0, 2).Draw(t, "changesItsMindBeforeAnswering") == 0 {
+					// the subscriber first asks for something else and changes its mind before it has looked at (and answered)
+					// the offers the first request produced: the server renegotiates connections whose offers are still unanswered
+					pre := drawReq("preliminaryReq")
+					l := make([]any, len(pre))
+					for k := range pre {
+						l[k] = pre[k]
+					}
+					w.logf("%s requests %v and, before answering,", sc.id, pre)
+					if err := w.s.send(sc, clientMessage{Type: "request", Request: map[string]any{"": l}}); err != nil {
+						t.Fatalf("request: %v", err)
+					}
+					w.s.pump()
+					w.changedMind++
+					sub.mindChanged = true
 				}
 				w.logf("%s requests %v", sc.id, mreq)
 				differentRequests[fmt.Sprint(mreq)] = true
@@ -942,10 +965,9 @@ func c07Machine(t *rapid.T, timer bool, rec *verifkit.Rec) {
 				}
 				// in a burst: keep going without waiting for the timers (but always flush at the end)
 				if !forced && i < steps-1 && (stickWho != nil || rapid.IntRange(0, 2).Draw(t, "burst") != 0) {
-					w.s.pump()
-					for _, o := range w.s.cs {
-						w.handle(w.subs[o])
-					}
+					// everything already written is read and answered (an answer may trigger a renegotiation, and so on);
+					// only the timers are not waited for
+					w.settle()
 					continue
 				}
 				if w.pending {
@@ -978,6 +1000,7 @@ func c07Machine(t *rapid.T, timer bool, rec *verifkit.Rec) {
 		rec.ClassN("closes_received", w.closesSeen)
 		rec.ClassN("streams_ended", w.teardowns)
 		rec.ClassN("replacement_offers_that_failed", w.failedReplaces)
+		rec.ClassN("requests_changed_before_the_first_offers_were_answered", w.changedMind)
 		rec.ClassN("streams_replaced", w.replaced)
 		rec.ClassN("aborts", w.aborts)
 		rec.ClassN("group_changes_with_a_push_still_queued", w.moves)
